@@ -44,7 +44,7 @@ class Lab:
         from spil import FindInList, FindInPaths, FindInAll
         rng = self.rng
         self.trees.reset()
-        self.names = names or rng.sample(TREE_NAMES, rng.randint(2, 4))
+        self.names = names or rng.sample(TREE_NAMES, rng.randint(3, 6))        # (the pool grew: keep every name's share of the universes)
         if names is None and rng.random() < (getattr(self, "p_twins", None) or 0.35):
             # a name and the same name behind the file-name separator (x_rig / rig): ambiguous in '_' joined file names
             self.names = sorted(set(self.names[:2]) | {"rig", self.twin})
